@@ -32,7 +32,7 @@ def scenarios(tier, rng):
             isasync = rng.random() < 0.6
             g1 = {"ops": [{"op": "new"}, {"op": "solve", "k": BIG}]}
             if j < n_hook:
-                g1["kill_at"] = rng.randint(2, 40)          # n-th hook event: sweeps, save calls/returns, ...
+                g1["kill_at"] = rng.randint(2, 40 if j % 2 else 75)   # n-th hook event: sweeps, save calls/returns, ...
                 tag = f"hook{g1['kill_at']}"
             else:
                 g1["shim_kill"] = rng.randint(2, 110)       # K-th file-system mutation under the directory
